@@ -430,6 +430,9 @@ CopiesSource(ps0, n, from, o) ==
        /\ n.allocs = s.allocs /\ PairSet(n.meta) = PairSet(s.meta) /\ Range(n.orig) = Range(s.orig) /\ n.ref = s.ref
        /\ n.name \in {s.name} \cup (IF o.name # "" THEN {o.name} ELSE {})
        /\ n.exp \in {s.exp} \cup ({o.exp} \cap Future)
+\* the committed pinset a call of the window saw: the one at the last flush -- unless the record says otherwise (a real
+\* batching consensus commits when the batch is old enough, which may be in the middle of a window)
+ViewOf(w, ps0) == IF "ps" \in DOMAIN w THEN Range(w.ps) ELSE ps0
 WriterOK(env, ps0, call, x, psF) ==
     IF call.op \in {"unpin", "unpinpath"} THEN ~Has(psF, x)                 \* the last word was "unpin": gone
     ELSE /\ OneEntry(psF, x)                                                 \* the last word was a pin: there, as asked
@@ -444,7 +447,7 @@ FlushOK(env, ps0, win, psF) ==
         LET k == LastWriter(env, ps0, win, x) IN
         IF k = 0 THEN /\ Has(ps0, x) <=> Has(psF, x)                          \* nobody (successfully) asked: untouched
                       /\ Has(ps0, x) => OneEntry(psF, x) /\ Norm(Ent(psF, x)) = Norm(Ent(ps0, x))
-        ELSE WriterOK(env, ps0, win[k].call, x, psF)
+        ELSE WriterOK(env, ViewOf(win[k], ps0), win[k].call, x, psF)
 
 \* ---- dispatch: immediate mode / deferred mode / flush ----
 EffectOK(env, ps, call, obs) ==
